@@ -29,7 +29,7 @@ Traces == IF "TRACE_FILE" \in DOMAIN IOEnv THEN JsonDeserialize(IOEnv.TRACE_FILE
 
 VARIABLES tid,     \* which trace / which model instance
           l,       \* trace position
-          phase,   \* "idle" | "running" | "overflow" | "exhausted" | "projraised" | "returned"
+          phase,   \* "idle" | "running" | "overflow" | "exhausted" | "projraised" | "projswallowed" | "returned"
           limit,   \* the interpreter's recursion limit
           saved,   \* the limit evaluate_bounded found
           result,  \* projections collected so far (exhaustive model; stays empty while a trace is validated)
@@ -40,7 +40,7 @@ vars == <<tid, l, phase, limit, saved, result, nres, pos>>
 \* ---------------------------------------------------------------- model instances
 \* small instances for exhaustive exploration
 ModelRefs == << <<>>, <<"a">>, <<"a", "b">>, <<"a", "b", "c">> >>
-Model == [ref : {ModelRefs[i] : i \in DOMAIN ModelRefs}, complete : BOOLEAN, shallow : BOOLEAN, raiseAt : 0..3, L : {50, 200}]
+Model == [ref : {ModelRefs[i] : i \in DOMAIN ModelRefs}, complete : BOOLEAN, shallow : BOOLEAN, raiseAt : 0..3, swallow : BOOLEAN, L : {50, 200}]
 Inst == IF Traces = <<>> THEN SetToSeq(Model) ELSE <<>>
 Ref      == IF Traces = <<>> THEN Inst[tid].ref ELSE Traces[tid].ref
 Complete == IF Traces = <<>> THEN Inst[tid].complete ELSE Traces[tid].complete
@@ -58,11 +58,16 @@ EB_Answer == /\ phase = "running" /\ pos < Len(Ref)
 EB_ProjRaise == /\ phase = "running" /\ pos < Len(Ref)
                 /\ pos' = pos + 1 /\ phase' = "projraised"
                 /\ UNCHANGED <<result, nres, limit, saved>>
+\* the projection raises RuntimeError (or a subclass) or StopIteration: evaluate_bounded treats these like its own
+\* overflow - the exception does not escape, the projections collected so far are returned
+EB_ProjSwallowed == /\ phase = "running" /\ pos < Len(Ref)
+                    /\ pos' = pos + 1 /\ phase' = "projswallowed"
+                    /\ UNCHANGED <<result, nres, limit, saved>>
 EB_Overflow == /\ phase = "running" /\ ~(Shallow /\ Complete)
                /\ phase' = "overflow" /\ UNCHANGED <<result, nres, limit, saved, pos>>
 EB_Exhausted == /\ phase = "running" /\ pos = Len(Ref) /\ Complete
                 /\ phase' = "exhausted" /\ UNCHANGED <<result, nres, limit, saved, pos>>
-EB_End == /\ phase \in {"overflow", "exhausted", "projraised"}
+EB_End == /\ phase \in {"overflow", "exhausted", "projraised", "projswallowed"}
           /\ limit' = saved /\ phase' = "returned" /\ UNCHANGED <<result, nres, saved, pos>>
 Result == IF Traces = <<>> THEN result ELSE SubSeq(Ref, 1, nres)
 
@@ -81,7 +86,8 @@ MInit == /\ tid \in 1..Cardinality(Model) /\ l = 0 /\ phase = "idle" /\ limit = 
 MNext == /\ UNCHANGED <<tid, l>>
          /\ \/ EB_Begin(Inst[tid].L)
             \/ (EB_Answer /\ pos + 1 # Inst[tid].raiseAt)
-            \/ (EB_ProjRaise /\ pos + 1 = Inst[tid].raiseAt)
+            \/ (EB_ProjRaise /\ pos + 1 = Inst[tid].raiseAt /\ ~Inst[tid].swallow)
+            \/ (EB_ProjSwallowed /\ pos + 1 = Inst[tid].raiseAt /\ Inst[tid].swallow)
             \/ EB_Overflow \/ EB_Exhausted \/ EB_End
 Spec == MInit /\ [][MNext]_vars
 ReturnsEverythingWhenShallow ==
@@ -92,15 +98,16 @@ Events == Traces[tid].events
 Ev == Events[l + 1]
 TBegin == /\ Ev.ev = "begin" /\ limit = Ev.before /\ EB_Begin(Ev.limit)
 TAnswer == /\ Ev.ev = "answer"
-           /\ IF Ev.raises THEN EB_ProjRaise ELSE EB_Answer
+           /\ IF Ev.raises THEN (IF "swallowed" \in DOMAIN Ev /\ Ev.swallowed THEN EB_ProjSwallowed ELSE EB_ProjRaise) ELSE EB_Answer
            /\ Ref[pos'] = Ev.ans
 \* the recorded end of the call: a silent Overflow / Exhausted step (or the projection's
 \* exception) followed by End; the logged fields must equal the abstract state
 TEnd == /\ Ev.ev = "end"
-        /\ \E why \in {"overflow", "exhausted", "projraised"} :
+        /\ \E why \in {"overflow", "exhausted", "projraised", "projswallowed"} :
              /\ CASE why = "overflow" -> phase = "running" /\ ~(Shallow /\ Complete)
                   [] why = "exhausted" -> phase = "running" /\ pos = Len(Ref) /\ Complete
                   [] why = "projraised" -> phase = "projraised"
+                  [] why = "projswallowed" -> phase = "projswallowed"
              /\ Ev.escaped = (IF why = "projraised" THEN "proj" ELSE "none")
              /\ (why # "projraised" => Ev.result = Result)
         /\ limit' = saved /\ limit' = Ev.after
